@@ -37,6 +37,8 @@ def run(tier):
         if k % 10 == 0:
             p.insert(rnd.randrange(len(p) + 1), "bogus rax")  # failing programs must fail identically
         progs.append("\n".join(p))
+    # program 0: option-sensitive lines only (the gap trials assemble it under two different option combinations)
+    progs[0] = "mov rax, 0x7fffffff\nlea r15, [rax+rsp]\nlea rcx, [2*rbx]\nmov rdx, 0x000000007fffffff\nadd qword [rbx+rsp], 5\nmov r9, 1"
     # a few programs long enough to make a library-managed buffer GROW (several times) while other threads create, use and destroy
     # their own instances: on the 32 KiB caller buffers the longest fail identically everywhere, on library buffers they grow
     progs_grow = list(progs)
